@@ -168,6 +168,16 @@ func VerifyInclusion(proof *InclusionProof, digest, root [sha256.Size]byte) bool
 		return false
 	}
 
+	if proof.Leaf < 0 || proof.Leaf >= proof.Width {
+		return false
+	}
+
+	// the number of terms is determined by the position of the leaf and the width of the tree,
+	// a proof of a different length can not be a proof for the claimed position and width
+	if len(proof.Terms) != inclusionProofLen(proof.Leaf, proof.Width) {
+		return false
+	}
+
 	leaf := [1 + sha256.Size]byte{LeafPrefix}
 	copy(leaf[1:], digest[:])
 
@@ -192,4 +202,22 @@ func VerifyInclusion(proof *InclusionProof, digest, root [sha256.Size]byte) bool
 	}
 
 	return i == r && root == calcRoot
+}
+
+// inclusionProofLen returns the number of terms of the inclusion proof
+// for the leaf at position i (0-based) in a tree of the given width
+func inclusionProofLen(i, width int) int {
+	r := width - 1
+
+	n := 0
+
+	// one term per level until the path reaches the right edge of the tree
+	for i != r {
+		n++
+		i /= 2
+		r /= 2
+	}
+
+	// on the right edge only left siblings are included
+	return n + bits.OnesCount(uint(r))
 }
